@@ -25,6 +25,7 @@ package ipfix
 // ---- headers ------------------------------------------------------------------------------------
 
 //@ func (*MessageHeader).unmarshal
+//@   names h r _ err
 //@   requires rdr(r)
 //@   ensures inv(r) && r.base == old(r.base) && r.count >= old(r.count)
 //@   ensures old(len(r.data)) >= 16 ==> err == nil && r.count == old(r.count) + 16 && mhdrAt(h, r.base, old(r.count))
@@ -32,9 +33,11 @@ package ipfix
 //@   modifies h, r.data, r.count
 
 //@ func (*MessageHeader).validate
+//@   names h _
 //@   ensures err == nil <==> h.Version == 10
 
 //@ func (*SetHeader).unmarshal
+//@   names h r _ err
 //@   requires rdr(r)
 //@   ensures inv(r) && r.base == old(r.base) && r.count >= old(r.count)
 //@   ensures old(len(r.data)) >= 4 ==> err == nil && r.count == old(r.count) + 4 && h.SetID == be16(r.base, old(r.count)) && h.Length == be16(r.base, old(r.count)+2)
@@ -42,6 +45,7 @@ package ipfix
 //@   modifies h, r.data, r.count
 
 //@ func (*TemplateHeader).unmarshal
+//@   names t r _ err
 //@   requires rdr(r)
 //@   ensures inv(r) && r.base == old(r.base) && r.count >= old(r.count)
 //@   ensures old(len(r.data)) >= 4 ==> err == nil && r.count == old(r.count) + 4 && t.TemplateID == be16(r.base, old(r.count)) && t.FieldCount == be16(r.base, old(r.count)+2) && t.ScopeFieldCount == old(t.ScopeFieldCount)
@@ -49,6 +53,7 @@ package ipfix
 //@   modifies t, r.data, r.count
 
 //@ func (*TemplateHeader).unmarshalOpts
+//@   names t r _ err
 //@   requires rdr(r)
 //@   ensures inv(r) && r.base == old(r.base) && r.count >= old(r.count)
 //@   ensures old(len(r.data)) >= 6 ==> err == nil && r.count == old(r.count) + 6 && t.TemplateID == be16(r.base, old(r.count)) && t.FieldCount == be16(r.base, old(r.count)+2) && t.ScopeFieldCount == be16(r.base, old(r.count)+4)
@@ -57,6 +62,7 @@ package ipfix
 
 // RFC 7011 3.2: the enterprise bit is the top bit of the first 16-bit word
 //@ func (*TemplateFieldSpecifier).unmarshal
+//@   names f r _ err
 //@   requires rdr(r)
 //@   ensures inv(r) && r.base == old(r.base) && r.count >= old(r.count)
 //@   ensures err == nil ==> r.count >= old(r.count) + 4
@@ -76,6 +82,7 @@ package ipfix
 //@     && (forall q :: before.off <= q && q < before.off + len(before) ==> fs.arr[q] == before.arr[q]) && specAt(fs[len(before)], r.base, c0) && r.count == c0 + specLen(r.base, c0)
 
 //@ func (*TemplateRecord).unmarshal
+//@   names tr r _ th tf err i err
 //@   requires rdr(r)
 //@   ensures inv(r) && r.base == old(r.base) && r.count >= old(r.count)
 //@   ensures err == nil ==> r.count >= old(r.count) + 4 && tr.TemplateID == be16(r.base, old(r.count)) && tr.FieldCount == be16(r.base, old(r.count)+2)
@@ -92,6 +99,7 @@ package ipfix
 //@     decreases i
 
 //@ func (*TemplateRecord).unmarshalOpts
+//@   names tr r _ th tf err i err i err
 //@   requires rdr(r)
 //@   ensures inv(r) && r.base == old(r.base) && r.count >= old(r.count)
 //@   ensures err == nil ==> r.count >= old(r.count) + 6 && tr.TemplateID == be16(r.base, old(r.count)) && tr.FieldCount == be16(r.base, old(r.count)+2) && tr.ScopeFieldCount == be16(r.base, old(r.count)+4)
@@ -115,6 +123,7 @@ package ipfix
 //@ pred isVarLen(t FieldType, l mathint) = (t == String || t == OctetArray) && l == 65535
 
 //@ func (*Decoder).getDataLength
+//@   names d fieldSpecifierLen t _ _ err readLength r len8
 //@   requires rdr(d.reader)
 //@   ensures rdr(d.reader) && d.reader.base == old(d.reader.base) && d.raddr == old(d.raddr) && d.reader.count >= old(d.reader.count)
 //@   ensures !isVarLen(t, fieldSpecifierLen) ==> err == nil && result == fieldSpecifierLen && d.reader.count == old(d.reader.count)
@@ -142,6 +151,7 @@ package ipfix
 //@     && f.Value == interpU(r.base.arr, r.base.off + r.count - n, n, m.Type)
 
 //@ func (*Decoder).decodeData
+//@   names d tr _ _ fields err b readLength r startCount i m ok i m ok
 //@   requires rdr(d.reader)
 //@   ensures rdr(d.reader) && d.reader.base == old(d.reader.base) && d.raddr == old(d.raddr) && d.reader.count >= old(d.reader.count)
 //@   ensures err == nil ==> len(result) == len(tr.ScopeFieldSpecifiers) + len(tr.FieldSpecifiers) && len(result) > 0
@@ -171,8 +181,10 @@ package ipfix
 // specMinRec names the function minRecordLen computes (a pure function of the template and the information model)
 //@ uninterp specMinRec(tr TemplateRecord) mathint
 //@ func (TemplateFieldSpecifier).minLen
+//@   names f _ m ok
 //@   ensures 0 <= result && result <= 65535
 //@ func (TemplateRecord).minRecordLen
+//@   names tr _ n _ f _ f
 //@   ensures result >= 1
 //@   ensures [trusted.def] result == specMinRec(tr)
 //@   loop 1
@@ -183,10 +195,12 @@ package ipfix
 // ---- sets and messages --------------------------------------------------------------------------
 
 //@ func NewDecoder
+//@   names raddr b _
 //@   opt borrows b
 //@   ensures result != nil && result.raddr == raddr && rdr(result.reader) && result.reader.base == b && result.reader.count == 0
 
 //@ func (*Decoder).decodeSet
+//@   names d mem msg _ startCount setHeader err tr err ok minLen setID templateID err tr data leftoverBytes _ skipErr
 //@   callassert insert: sameview(arg1, d.raddr) && arg0 == arg2.TemplateID   // a parsed template is stored under the exporter's own address and its own id
 //@   callassert insert: setHeader.SetID == 2 ==> len(arg2.FieldSpecifiers) == arg2.FieldCount && len(arg2.ScopeFieldSpecifiers) == 0   // exactly the specifiers of this template record, nothing left over from an earlier one
 //@   callassert insert: setHeader.SetID == 3 ==> len(arg2.ScopeFieldSpecifiers) == arg2.ScopeFieldCount && len(arg2.FieldSpecifiers) == (arg2.FieldCount - arg2.ScopeFieldCount) % 65536
@@ -220,6 +234,7 @@ package ipfix
 //@     decreases len(d.reader.data) + (err == nil ? 1 : 0)
 
 //@ func (*Decoder).Decode
+//@   names d mem _ _ msg err err decodeErrors err
 //@   opt borrows d
 //@   requires rdr(d.reader) && d.reader.count == 0 && len(d.reader.base) <= 65535 && wellFormed(mem)
 //@   ensures (len(old(d.reader.base)) < 16 || be16(old(d.reader.base), 0) != 10) ==> result == nil && err != nil
@@ -237,6 +252,7 @@ package ipfix
 //@     decreases len(d.reader.data)
 
 //@ func combineErrors
+//@   names errorSlice err errMsg _ subError
 //@   requires forall i :: 0 <= i && i < len(errorSlice) ==> errorSlice[i] != nil
 //@   ensures len(errorSlice) == 0 ==> err == nil
 //@   ensures len(errorSlice) > 0 ==> err != nil
@@ -249,6 +265,7 @@ package ipfix
 //@     : ((t == Uint64 || t == Int64 || t == Float64 || t == DateTimeMilliseconds || t == DateTimeMicroseconds || t == DateTimeNanoseconds) ? 8 : (t == MacAddress ? 6 : (t == Ipv6Address ? 16 : 0)))))
 
 //@ func (FieldType).minLen
+//@   names t _
 //@   ensures result == specMinLen(t)
 
 // RFC 7011 6.1: a field is interpreted according to the abstract data type of its element when it has
@@ -261,6 +278,7 @@ package ipfix
 // no global state, no side effect); its properties are the proved clauses below
 //@ uninterp interpU(a [0]byte, off mathint, n mathint, t FieldType) any
 //@ func Interpret
+//@   names b t _
 //@   requires b != nil
 //@   ensures [trusted.def] result == interpU(val(b).arr, val(b).off, len(val(b)), t)
 //@   ensures [short] len(val(b)) < specMinLen(t) ==> rawOctets(result, val(b))
@@ -286,6 +304,7 @@ package ipfix
 // ---- template cache -----------------------------------------------------------------------------
 
 //@ func (MemCache).getShard
+//@   names m id addr _ _ b key hash hSum32
 //@   requires wellFormed(m)
 //@   ensures result != nil && !result.Templates.isnil
 //@   ensures [key] (len(addr) == 4 || len(addr) == 16) ==> result1 == fnvKey(addr, id)   // the map key is FNV-1 32 of the address octets followed by the big-endian id
@@ -294,6 +313,7 @@ package ipfix
 
 // the write goes through the shard pointer obtained from m: its effect on the view is Go's map assignment
 //@ func (MemCache).insert
+//@   names m id addr tr shard key
 //@   requires wellFormed(m)
 //@   ensures wellFormed(m)
 //@   ensures [trusted.view] cacheHas(m, addr, id) && cacheGet(m, addr, id) == tr
@@ -301,6 +321,7 @@ package ipfix
 //@   modifies contents(m)
 
 //@ func (MemCache).retrieve
+//@   names m id addr _ _ shard key v ok
 //@   requires wellFormed(m)
 //@   ensures [view] result1 == cacheHas(m, addr, id) && (result1 ==> result == cacheGet(m, addr, id))
 
@@ -312,6 +333,7 @@ package ipfix
 //@ pred jsKey(j ghost.JSON) = (j.Ph == 2 || j.Ph == 3) && jstop(j) == 1 && j.Dp >= 1 && j.Dp <= 2 && jscanon(j)
 
 //@ func (*Message).JSONMarshal
+//@   names m b _ _ err
 //@   opt borrows b
 //@   opt json
 //@   requires b != nil && b.js.Ph == 0 && b.js.Dp == 0 && jscanon(b.js) && jssafe(m.AgentID)
@@ -319,6 +341,7 @@ package ipfix
 //@   modifies b
 
 //@ func (*Message).encodeAgent
+//@   names m b
 //@   opt json
 //@   requires b != nil && jsKey(b.js) && jssafe(m.AgentID)
 //@   ensures b.js == jsset(old(b.js), 3)
@@ -326,6 +349,7 @@ package ipfix
 //@   modifies b
 
 //@ func (*Message).encodeHeader
+//@   names m b
 //@   opt json
 //@   requires b != nil && jsKey(b.js)
 //@   ensures b.js == jsset(old(b.js), 3)
@@ -337,6 +361,7 @@ package ipfix
 //@   modifies b
 
 //@ func (*Message).encodeDataSet
+//@   names m b _ length dsLength err i j
 //@   opt json
 //@   requires b != nil && jsKey(b.js)
 //@   ensures err == nil ==> b.js == jsset(old(b.js), 5)
@@ -351,12 +376,14 @@ package ipfix
 //@     invariant b.js == jsset(pre(b.js), range_i == 0 ? 1 : (range_i < len(m.DataSets[i]) ? 0 : 5)) && pre(b.js).Dp >= 1 && pre(b.js).Dp <= 4 && jstop(pre(b.js)) == 2
 
 //@ func (*Message).encodeDataSetFlat
+//@   names m b _ length dsLength err i j
 //@   requires b != nil
 //@   opt noverify flat encoding is not used by any worker
 //@   modifies b
 
 // the value of one decoded field: a number for the numeric types (exact), quoted text otherwise
 //@ func (*Message).writeValue
+//@   names m b i j _ f f s err
 //@   opt json
 //@   requires b != nil && 0 <= i && i < len(m.DataSets) && 0 <= j && j < len(m.DataSets[i])
 //@   requires b.js.Ph == 0 && b.js.Dp >= 1 && b.js.Dp <= 5 && jscanon(b.js)
@@ -372,6 +399,7 @@ package ipfix
 // the result is either the cache decoded from the file or a fresh cache without templates
 //@ pred allEmpty(m MemCache) = forall j :: m.off <= j && j < m.off + len(m) ==> m.arr[j] != nil && len(m.arr[j].Templates) == 0
 //@ func GetCache
+//@   names cacheFile _ mem err b m i
 //@   exitassert [loadedOrEmpty] sameview(result, mem.Cache) || allEmpty(result)
 //@   opt nolock the cache being loaded or built is not shared before GetCache returns
 //@   opt replayprobe result.retrieve(300, net.IP{10, 0, 0, 1})
@@ -382,16 +410,36 @@ package ipfix
 //@     decreases 32 - i
 
 //@ func (MemCache).valid
+//@   names m _ _ shard
 //@   opt nolock called from GetCache on a cache that is not shared yet
 //@   ensures result ==> wellFormed(m)
 //@   loop 1
 //@     invariant len(m) == 32 && (forall j :: m.off <= j && j < m.off + range_i ==> m.arr[j] != nil && !m.arr[j].Templates.isnil)
 
+// the loader's specification (C20): when a file was read, the model is exactly the set of file entries with at
+// least two properties, each keyed by (enterprise, id) with FieldID = id, Name = first property and
+// Type = FieldTypes[second property]; visited(k) = the enclosing map range has already iterated key k
+//@ pred loadedEntry(ext map[uint32]map[uint16][]string, pen uint32, id uint16) = has(InfoModel, mkstruct(ElementKey, pen, id)) && InfoModel[mkstruct(ElementKey, pen, id)] == mkstruct(InfoElementEntry, id, ext[pen][id][0], lookup(FieldTypes, ext[pen][id][1]))
+//@ pred fileEntry(ext map[uint32]map[uint16][]string, pen uint32, id uint16) = has(ext, pen) && has(ext[pen], id) && len(ext[pen][id]) > 1
 //@ func LoadExtElements
+//@   names cfgPath _ file ipfixElements _ err b err PEN elements elementID prop
 //@   modifies InfoModel
+//@   opt replaytest inv ipfix_loader_spec.go post ipfix_loader_spec.go
+//@   exitassert [loader.complete] result == nil ==> InfoModel == old(InfoModel) || (forall pen uint32, id uint16 :: fileEntry(ipfixElements, pen, id) ==> loadedEntry(ipfixElements, pen, id))
+//@   exitassert [loader.sound] result == nil ==> InfoModel == old(InfoModel) || (forall k ElementKey :: has(InfoModel, k) ==> fileEntry(ipfixElements, k.EnterpriseNo, k.ElementID))
+//@   exitassert [loader.error] result != nil ==> InfoModel == old(InfoModel)
+//@   loop 1
+//@     invariant !InfoModel.isnil
+//@     invariant forall pen uint32, id uint16 :: visited(pen) && fileEntry(ipfixElements, pen, id) ==> loadedEntry(ipfixElements, pen, id)
+//@     invariant forall k ElementKey :: has(InfoModel, k) ==> visited(k.EnterpriseNo) && fileEntry(ipfixElements, k.EnterpriseNo, k.ElementID)
+//@   loop 2
+//@     invariant !InfoModel.isnil
+//@     invariant forall pen uint32, id uint16 :: (visited1(pen) || (pen == PEN && visited(id))) && fileEntry(ipfixElements, pen, id) ==> loadedEntry(ipfixElements, pen, id)
+//@     invariant forall k ElementKey :: has(InfoModel, k) ==> (visited1(k.EnterpriseNo) || (k.EnterpriseNo == PEN && visited(k.ElementID))) && fileEntry(ipfixElements, k.EnterpriseNo, k.ElementID)
 
 // Dump marshals every shard by reflection: all shards must be read-locked across json.Marshal (C10, C15)
 //@ func (MemCache).Dump
+//@   names m cacheFile _ _ shard b err _ shard
 //@   requires wellFormed(m)
 //@   loop 1
 //@     acquires m R
@@ -399,14 +447,17 @@ package ipfix
 //@     releases m
 
 //@ func NewRPC
+//@   names mCache _
 //@   ensures result != nil && result.mCache == mCache
 //@ func (*IRPC).Get
+//@   names r req resp _ ok
 //@   requires wellFormed(r.mCache) && resp != nil
 //@   ensures err == nil <==> cacheHas(r.mCache, req.IP, req.ID)
 //@   ensures err == nil ==> val(resp) == cacheGet(r.mCache, req.IP, req.ID)
 //@   modifies resp
 
 //@ func (MemCache).allSetIds
+//@   names m _ num _ shard result _ shard _ set
 //@   requires wellFormed(m)
 //@   opt testonly debugging helper; the verifier checks that no non-test code refers to it
 //@   opt noverify its template count can overflow int in principle; not on any production path
